@@ -101,6 +101,8 @@ pub struct Sel {
     pub hist_counters: Option<u32>,
     /// COUNTS: many men of one kind per side
     pub counts: bool,
+    /// BACKRANK (valid boards of the family)
+    pub backrank: bool,
     /// BOXK: cornered king with at most one legal move; 1 = corners a1 / h8, 2 = all four
     pub boxk: Option<u8>,
 }
@@ -128,6 +130,7 @@ impl Sel {
                 castle2: true,
                 counts: true,
                 boxk: Some(2),
+                backrank: true,
                 ..Default::default()
             }
         } else {
@@ -149,6 +152,7 @@ impl Sel {
                 castle2: true,
                 counts: true,
                 boxk: Some(1),
+                backrank: true,
                 ..Default::default()
             }
         }
@@ -380,6 +384,20 @@ pub fn run_universes(run: &mut Run, sel: &Sel, disagree_idx: usize, check: PosCh
         let shards: Vec<usize> = (0..uni::BOXK_SHARDS).filter(|sh| level >= 2 || sh / 2 == 0 || sh / 2 == 3).collect();
         run.par_shards(&format!("BOXK (cornered king, enemy king a knight's jump away, one checker, one own man anywhere, +- a seventh-rank pawn with a capture; {} corners)", shards.len() / 2), shards.len() * uni::KZONE_PARTS, |ctx, j| {
             uni::boxk(shards[j / uni::KZONE_PARTS], j % uni::KZONE_PARTS, &mut |p| visit(ctx, p, disagree_idx, check));
+        });
+    }
+    if sel.counts {
+        run.par_shards("PROMOROW (every subset of own seventh-rank pawns x every subset of enemy knights on the eighth)", 32, |ctx, sh| {
+            uni::promorow((sh / 16) as u8, sh % 16, &mut |p| visit(ctx, p, disagree_idx, check));
+        });
+    }
+    if sel.backrank {
+        run.par_shards("BACKRANK (king, rooks and queens on the back rank behind a full, nearly full or absent pawn rank, enemy king on the same rank or far; valid ones)", uni::BACKRANK_SHARDS, |ctx, sh| {
+            uni::backrank(sh, &mut |r| {
+                if let Ok(p) = r.validate() {
+                    visit(ctx, &p, disagree_idx, check);
+                }
+            });
         });
     }
     if sel.counts {
